@@ -57,9 +57,16 @@ pub struct Pre {
 
 /// Arbitrary state satisfying `CliInv`.
 pub fn any_pre() -> Pre {
+    let valid: usize = kani::any();
+    any_pre_valid(valid)
+}
+
+/// Arbitrary state satisfying `CliInv` whose line has exactly `valid` bytes.  With a
+/// constant `valid` the loops over the line fold during symbolic execution, which
+/// is what makes the Enter-class harnesses fit into memory (one instance per length).
+pub fn any_pre_valid(valid: usize) -> Pre {
     let ebuf: [u8; N] = kani::any();
     let cursor: usize = kani::any();
-    let valid: usize = kani::any();
     kani::assume(valid <= N);
     kani::assume(editor_inv(&ebuf, cursor, valid));
     let count = scalar_count(&ebuf, valid);
